@@ -522,6 +522,10 @@ def names_clash():
             "hash": f'db.Setting = HASH("{nm}") + p\n',
             "hash-alone": f'hv = HASH("{nm}")\nBatteries[hv].Lock = p\n',
         }
+        # a '#' inside a string operand is not the start of a comment: on a branch line the jump target follows it
+        uses["hash-branch"] = f'if d1.Setting == HASH("{nm} #1"):\n    db.Lock = p\nelse:\n    db.Lock = 0\n'
+        uses["hash-while"] = f'n = p\nwhile n != HASH("#{nm}"):\n    n = HASH("#{nm}")\n    db.Lock = 1\n'
+        uses["hash-devname"] = f'Batteries["{nm} #2"].On = p\nif Batteries["# {nm}"].Charge.Sum > p:\n    db.Lock = 2\n'
         if nm in LT:
             uses["logic-store"] = f"d1.{nm} = p\n"
             uses["logic-load"] = f"db.Setting = d1.{nm} + p\n"
@@ -533,7 +537,7 @@ def names_clash():
         for un, use in uses.items():
             for where in ("in-function", "in-main", "both"):
                 body = ind(use) if where != "in-main" else ""
-                main = ind(use.replace(" p\n", " 2\n").replace("+ p", "+ 2")) if where != "in-function" else ""
+                main = ind(use.replace(" p\n", " 2\n").replace("+ p", "+ 2").replace("> p:", "> 2:")) if where != "in-function" else ""
                 src = f"def {nm}(p):\n    db.On = p\n{body}    return p + 1\nwhile True:\n    db.Mode = {nm}(d0.Setting)\n{main}    db.Mode = {nm}(3)\n    yield_()\n"
                 out.append(mk("NAMECLASH", n, src, names=[nm], use=un, V=[0, 1, 2], K=10, T=2, cap=32))
                 n += 1
@@ -947,7 +951,10 @@ def dead(tier="quick"):
         "ternary": "db.Setting = val(1) if {T} else 9\n",
         "while": "while {T}:\n    {A}\n    break\n",
     }
-    acts = {"write": ("db.Setting = x + 1", "db.Setting = x + 2"), "only": ("only(x)", "db.Setting = 3"), "onlyelse": ("db.Setting = 4", "only(x)"), "both": ("both(x)", "both(7)"), "val": ("db.Setting = val(x)", "db.Setting = 8")}
+    # a function whose body contains an @emit_code call (raw lines): for the reference executor the raw line is the store it stands for
+    femit = "@emit_code\ndef raw():\n    return [\"s db Open 44\"]\ndef onlye(a):\n    db.On = a\n    raw()\n"
+    femit_ref = "def raw():\n    db.Open = 44\ndef onlye(a):\n    db.On = a\n    raw()\n"
+    acts = {"write": ("db.Setting = x + 1", "db.Setting = x + 2"), "only": ("only(x)", "db.Setting = 3"), "onlyelse": ("db.Setting = 4", "only(x)"), "both": ("both(x)", "both(7)"), "val": ("db.Setting = val(x)", "db.Setting = 8"), "emit": ("onlye(x)", "db.Setting = 3")}
     for (pre, T, truth) in flags:
         for sn, sh in shapes.items():
             for an, (A, B) in acts.items():
@@ -960,7 +967,7 @@ def dead(tier="quick"):
                 # which of A / B can run?  (the harness knows the truth value of the flag)
                 liveA = {"if": truth, "ifelse": truth, "ifnot": not truth, "and": True, "nested": truth, "elif": truth, "ternary": True, "while": truth}[sn]
                 liveB = {"if": False, "ifelse": not truth, "ifnot": truth, "and": True, "nested": False, "elif": not truth, "ternary": False, "while": False}[sn]
-                live_call = (liveA and "(" in A.split("=")[-1] and any(f in A for f in ("only(", "both(", "val("))) or (liveB and any(f in B for f in ("only(", "both(", "val("))) or ("both(" in A + B)
+                live_call = (liveA and "(" in A.split("=")[-1] and any(f in A for f in ("only(", "both(", "val(", "onlye("))) or (liveB and any(f in B for f in ("only(", "both(", "val(", "onlye("))) or ("both(" in A + B)
                 defs = ""
                 if "only(" in body:
                     defs += fdefs
@@ -968,23 +975,139 @@ def dead(tier="quick"):
                     defs += fboth
                 if "val(" in body:
                     defs += fret
+                if "onlye(" in body:
+                    defs += femit
                 tail = "both(5)\n" if "both(" in body else ""
                 # (1) endless main: no interaction with finding F-07
                 main = "x = d0.Setting\n" + body + tail + "yield_()\n"
                 src = defs + pre + "while True:\n" + ind(main)
                 fam = "W-F01j" if sn == "ternary" else "DEAD"  # a conditional expression evaluates both arms (finding F-01j)
-                out.append(mk(fam, n, src, tag=f"loop/{T}/{sn}/{an}", V=[0, 1, 2, 3], K=10, T=2, cap=64))
+                out.append(mk(fam, n, src, tag=f"loop/{T}/{sn}/{an}", **({"ref_src": src.replace(femit, femit_ref)} if femit in src else {}), V=[0, 1, 2, 3], K=10, T=2, cap=64))
                 # (2) terminating main
                 src2 = defs + pre + "x = d0.Setting\n" + body + tail + "db.Open = 5\n"
                 # terminating main: with a live call an out-of-line function may follow the main code (finding F-07)
                 fam2 = "W-F01j" if sn == "ternary" else ("W-F07" if live_call else "DEAD-TERM")
-                out.append(mk(fam2, n, src2, tag=f"term/{T}/{sn}/{an}", V=[0, 1, 2, 3], K=10, T=2, cap=64))
+                out.append(mk(fam2, n, src2, tag=f"term/{T}/{sn}/{an}", **({"ref_src": src2.replace(femit, femit_ref)} if femit in src2 else {}), V=[0, 1, 2, 3], K=10, T=2, cap=64))
                 # (3) inside a function body
                 src3 = defs + pre + "def work(x):\n" + ind(body + tail + "db.Open = x\n") + "while True:\n    work(d0.Setting)\n    work(2)\n    yield_()\n"
-                out.append(mk(fam, n, src3, tag=f"func/{T}/{sn}/{an}", V=[0, 1, 2, 3], K=10, T=2, cap=64))
+                out.append(mk(fam, n, src3, tag=f"func/{T}/{sn}/{an}", **({"ref_src": src3.replace(femit, femit_ref)} if femit in src3 else {}), V=[0, 1, 2, 3], K=10, T=2, cap=64))
                 n += 1
     return out
 
+
+
+# ----------------------------------------------------------------------------
+# SYNTAX: one program per Python construct, inside and outside the supported subset -- whatever is accepted must behave like the
+# source (C01); most constructs outside the subset are refused, which is fine
+
+SYNTAX_FORMS = {
+ "swap": "a = d0.Setting\nb = d1.Setting\na, b = b, a\ndb.Setting = a\ndb.On = b\n",
+ "tuple-assign": "a, b = d0.Setting, 5\ndb.Setting = a + b\n",
+ "multi-assign": "a = b = d0.Setting\na = a + 1\ndb.Setting = a\ndb.On = b\n",
+ "chained-cmp": "x = d0.Setting\nif 0 < x < 3:\n    db.Setting = 1\nelse:\n    db.Setting = 2\n",
+ "chained-cmp-val": "x = d0.Setting\ndb.Setting = 0 < x < 3\n",
+ "while-else": "x = d0.Setting\nwhile x < 3:\n    x += 1\nelse:\n    db.On = 9\ndb.Setting = x\n",
+ "for-else": "for i in range(3):\n    db.On = i\nelse:\n    db.Setting = 7\n",
+ "aug-dev": "db.Setting += 2\ndb.On = 1\n",
+ "aug-dev2": "d1.Setting *= d0.Setting\n",
+ "kwargs": "def f(a, b):\n    db.Setting = a * 10 + b\nwhile True:\n    f(b=d0.Setting, a=2)\n    f(1, 2)\n    yield_()\n",
+ "default-arg": "def f(a, b=7):\n    db.Setting = a * 10 + b\nwhile True:\n    f(d0.Setting)\n    f(1, 2)\n    yield_()\n",
+ "nested-def": "def outer(a):\n    def inner(b):\n        return b + 1\n    return inner(a) * 2\nwhile True:\n    db.Setting = outer(d0.Setting)\n    db.On = outer(2)\n    yield_()\n",
+ "pass": "x = d0.Setting\nif x:\n    pass\nelse:\n    db.On = 1\ndb.Setting = x\n",
+ "docstring": "def f(a):\n    \"\"\"doc\"\"\"\n    return a + 1\nwhile True:\n    db.Setting = f(d0.Setting)\n    db.On = f(1)\n    yield_()\n",
+ "global-stmt": "count = 0\ndef f():\n    global count\n    count = count + 1\nwhile True:\n    f()\n    f()\n    db.Setting = count\n    yield_()\n",
+ "ternary-nested": "x = d0.Setting\ndb.Setting = 1 if x > 2 else (2 if x > 1 else 3)\n",
+ "bool-ops-val": "x = d0.Setting\ny = d1.Setting\ndb.Setting = (x and y) + (x or y)\n",
+ "not-val": "x = d0.Setting\ndb.Setting = not x\n",
+ "neg-pow": "x = d0.Setting\ndb.Setting = -x ** 2\n",
+ "floordiv": "x = d0.Setting\ndb.Setting = (x + 7) // 2\ndb.On = -7 // 2\n",
+ "mod-neg": "x = d0.Setting\ndb.Setting = (x - 5) % 3\ndb.On = -7 % 3\n",
+ "shift": "x = d0.Setting\ndb.Setting = (x + 1) << 2\ndb.On = 256 >> x\n",
+ "bitops": "x = d0.Setting\ndb.Setting = (x | 4) ^ (x & 1)\n",
+ "is-none": "x = d0.Setting\nif x is None:\n    db.On = 1\ndb.Setting = x\n",
+ "in-list": "x = d0.Setting\nif x in [1, 2]:\n    db.On = 1\ndb.Setting = x\n",
+ "while-break-else": "x = d0.Setting\nwhile True:\n    x += 1\n    if x > 2:\n        break\ndb.Setting = x\n",
+ "return-none": "def f(a):\n    if a > 1:\n        return\n    db.On = a\nwhile True:\n    f(d0.Setting)\n    f(0)\n    yield_()\n",
+ "early-return-val-loop": "def f(a):\n    for i in range(5):\n        if i == a:\n            return i * 10\n    return -1\nwhile True:\n    db.Setting = f(d0.Setting)\n    db.On = f(9)\n    yield_()\n",
+ "elif-chain": "x = d0.Setting\nif x == 0:\n    db.Setting = 10\nelif x == 1:\n    db.Setting = 11\nelif x == 2:\n    db.Setting = 12\nelse:\n    db.Setting = 13\n",
+ "compare-chain-eq": "x = d0.Setting\ndb.Setting = x == 1 == 1\n",
+ "int-cast": "x = d0.Setting\ndb.Setting = int(x / 2)\n",
+ "round": "x = d0.Setting\ndb.Setting = round(x / 2)\n",
+ "abs-min-max": "x = d0.Setting\ndb.Setting = abs(x - 2) + min(x, 1) + max(x, 2)\n",
+ "float-lit": "x = d0.Setting\ndb.Setting = x * 0.1 + 1e-3\n",
+ "range-neg-step": "for i in range(3, -1, -1):\n    db.On = i\n",
+ "nested-while-continue": "x = d0.Setting\nn = 0\nwhile n < 3:\n    n += 1\n    if n == x:\n        continue\n    db.On = n\n",
+ "string-const": "NAME = 'Pump A'\nBatteries[NAME].On = d0.Setting\n",
+ "list-len": "arr = [4, 5, 6]\ndb.Setting = len(arr) + d0.Setting\n",
+ "list-for-idx": "arr = [4, 5, 6]\nfor i in range(len(arr)):\n    db.On = arr[i]\n",
+ "neg-index": "arr = [4, 5, 6]\ndb.Setting = arr[-1] + d0.Setting\n",
+ "const-fold-div0": "x = d0.Setting\ndb.Setting = x + 1 / 0\n",
+ "assert": "x = d0.Setting\nassert x >= 0\ndb.Setting = x\n",
+ "del": "x = d0.Setting\ndb.Setting = x\ndel x\n",
+ "lambda": "f = lambda a: a + 1\ndb.Setting = f(d0.Setting)\n",
+ "star-args": "def f(*a):\n    db.Setting = 1\nf(1, 2)\n",
+ "walrus": "if (x := d0.Setting) > 1:\n    db.Setting = x\n",
+ "fstring": "x = d0.Setting\nBatteries[f'P{1}'].On = x\n",
+ "true-div-int": "x = d0.Setting\ndb.Setting = 7 / 2 + x\n",
+ "aug-all": "x = d0.Setting\nx -= 1\nx *= 3\nx /= 2\nx //= 1\nx %= 5\nx **= 2\nx <<= 1\nx >>= 1\nx |= 8\nx &= 12\nx ^= 5\ndb.Setting = x\n",
+ "redef-func": "def f(a):\n    db.On = a\ndef f(a):\n    db.Setting = a\nwhile True:\n    f(d0.Setting)\n    f(1)\n    yield_()\n",
+ "call-before-def": "def g(a):\n    return h(a) + 1\ndef h(a):\n    return a * 2\nwhile True:\n    db.Setting = g(d0.Setting)\n    db.On = g(1)\n    yield_()\n",
+ "param-assign": "def f(a):\n    a = a + 1\n    db.Setting = a\nwhile True:\n    x = d0.Setting\n    f(x)\n    f(x)\n    db.On = x\n    yield_()\n",
+ "shadow-global": "v = 5\ndef f(a):\n    v = a + 1\n    db.Setting = v\nwhile True:\n    f(d0.Setting)\n    f(1)\n    db.On = v\n    yield_()\n",
+ "global-read-in-func": "v = d1.Setting\ndef f(a):\n    db.Setting = v + a\nwhile True:\n    f(d0.Setting)\n    f(1)\n    yield_()\n",
+ "tuple-return": "def f(a):\n    return a, a + 1\nwhile True:\n    p, q = f(d0.Setting)\n    db.Setting = p + q\n    yield_()\n",
+ "try": "try:\n    db.Setting = d0.Setting\nexcept Exception:\n    db.On = 1\n",
+ "with": "with open('x') as f:\n    db.Setting = 1\n",
+ "class": "class A:\n    pass\ndb.Setting = 1\n",
+ "import-math": "import math\ndb.Setting = math.floor(d0.Setting / 2)\n",
+ "floor-call": "db.Setting = floor(d0.Setting / 2) + ceil(d0.Setting / 2)\n",
+ "pow-neg": "x = d0.Setting\ndb.Setting = 2 ** (x - 2)\n",
+ "pow-frac": "x = d0.Setting\ndb.Setting = x ** 0.5\n",
+ "floordiv-rt": "x = d0.Setting\ndb.Setting = (x - 3) // 2\n",
+ "str-concat-hash": "db.Setting = HASH('a' + 'b') + d0.Setting\n",
+ "if-float": "x = d0.Setting / 4\nif x:\n    db.On = 1\ndb.Setting = x\n",
+ "while-cond-call": "def more(n):\n    return n < 3\nn = d0.Setting\nwhile more(n):\n    n += 1\n    db.On = n\n",
+ "cmp-in-arith": "x = d0.Setting\ndb.Setting = (x > 1) + (x == 2) * 10\n",
+ "not-in-arith": "x = d0.Setting\ndb.Setting = (not x) + 1\n",
+ "and-chain": "x = d0.Setting\ny = d1.Setting\nif x > 0 and y > 0 and x != y:\n    db.On = 1\nelse:\n    db.On = 0\n",
+ "or-in-while": "x = d0.Setting\nn = 0\nwhile n < x or n < 2:\n    n += 1\ndb.Setting = n\n",
+ "neg-step-var": "s = d0.Setting - 3\nfor i in range(3, 0, s):\n    db.On = i\n",
+ "range-float": "for i in range(d0.Setting / 2):\n    db.On = i\n",
+ "augassign-global-in-func": "tot = 0\ndef add1(a):\n    global tot\n    tot += a\nwhile True:\n    add1(d0.Setting)\n    add1(1)\n    db.Setting = tot\n    yield_()\n",
+ "local-without-global": "tot = 0\ndef add1(a):\n    tot = a\n    db.On = tot\nwhile True:\n    add1(d0.Setting)\n    add1(1)\n    db.Setting = tot\n    yield_()\n",
+ "unary-plus": "x = d0.Setting\ndb.Setting = +x\n",
+ "invert-const": "db.Setting = ~5 + d0.Setting\n",
+ "bool-const": "x = True\ndb.Setting = x + d0.Setting\n",
+ "multiple-targets-dev": "db.Setting = db.On = d0.Setting\n",
+ "dev-compare-chain": "if d0.Setting > d1.Setting > 0:\n    db.On = 1\n",
+ "hex-oct-bin": "db.Setting = 0x10 + 0o10 + 0b10 + d0.Setting\n",
+ "big-int": "db.Setting = 12345678901234567890 + d0.Setting\n",
+ "underscore-num": "db.Setting = 1_000 + d0.Setting\n",
+ "sci": "db.Setting = 1.5e3 + d0.Setting\n",
+ "line-cont": "x = d0.Setting + \\\n    1\ndb.Setting = x\n",
+ "semicolon": "x = d0.Setting; db.Setting = x\n",
+ "oneline-if": "x = d0.Setting\nif x: db.On = 1\ndb.Setting = x\n",
+ "comment-pytrapic-mid": "x = d0.Setting  # pytrapic: compact\ndb.Setting = x\n",
+ "while-true-return-main": "x = d0.Setting\ndb.Setting = x\nreturn\n",
+ "nested-func-3": "def a1(x):\n    return x + 1\ndef a2(x):\n    return a1(x) * 2\ndef a3(x):\n    return a2(x) + a1(x)\nwhile True:\n    db.Setting = a3(d0.Setting)\n    db.On = a3(1) + a2(2)\n    yield_()\n",
+}
+
+
+def syntax(tier="quick"):
+    out = []
+    for n, (name, src) in enumerate(SYNTAX_FORMS.items()):
+        out.append(mk("SYNTAX", n, src, tag=name, V=[0, 1, 2, 3], K=10, T=2, cap=64))
+        # the same statements inside a function that is called twice (registers, argument slots, labels of a second scope)
+        if "def " not in src and "return\n" not in src and "import" not in src and "class " not in src:
+            import re
+
+            m = re.match(r"(\w+) = d0\.Setting\n", src)
+            if m and src.count("d0.Setting") == 1:
+                par, body = m.group(1), src[m.end():]  # the variable becomes the parameter ('x = p0' would be an alias: finding F-04a)
+            else:
+                par, body = "p0", src.replace("d0.Setting", "p0")
+            out.append(mk("SYNTAX", n, "def body(" + par + "):\n" + ind(body) + "while True:\n    body(d0.Setting)\n    body(1)\n    yield_()\n", tag=name + "/func", V=[0, 1, 2, 3], K=12, T=2, cap=64))
+    return out
 
 
 # ----------------------------------------------------------------------------
@@ -1022,6 +1145,47 @@ def deadlib(tier="quick"):
             src = head + "def work(x):\n" + ind("pump.pulse(x)\n" + block + "db.Open = x\n") + "while True:\n    work(d0.Setting)\n    pump.pulse(4)\n    yield_()\n"
             out.append(mkd("DEADLIB", n, src, f"loop2/{gn}/{dn}"))
             n += 1
+    return out
+
+
+# ----------------------------------------------------------------------------
+# GLOBALS: module-level variables written inside functions; where the initialisation stands relative to the functions, whether
+# the main code mentions the variable, and what else the main code keeps in registers meanwhile (C04, C01)
+
+def globals_family(tier="quick"):
+    out = []
+    n = 0
+    funcs = {
+        "inc": "def tick():\n    global count\n    count = count + 1\n    db.Setting = count\n",
+        "incarg": "def tick(a):\n    global count\n    count = count + a\n    db.Setting = count\n",
+        "two": "def tick():\n    global count\n    count = count + 1\ndef show():\n    db.Setting = count\n",
+        "reset": "def tick():\n    global count\n    count = count + 1\n    if count > 3:\n        count = 0\n    db.Setting = count\n",
+        "pair": "def tick():\n    global count\n    global total\n    count = count + 1\n    total = total + count\n    db.Setting = total\n",
+    }
+    mains = {
+        "silent": "{CALL}\ndb.On = (d0.Setting + 1) * 2\n{CALL}\n",
+        "temps": "{CALL}\na = d0.Setting\nb = d1.Setting\ndb.On = (a + 1) * (b + 2) - a * b\n{CALL}\ndb.Mode = a\n",
+        "reads": "{CALL}\ndb.On = count + d0.Setting\n{CALL}\n",
+        "local-call": "def other(q):\n    t = q * 2\n    return t + 1\n@@{CALL}\ndb.On = other(d0.Setting) + other(1)\n{CALL}\n",
+    }
+    for fn, fsrc in funcs.items():
+        call = {"inc": "tick()", "incarg": "tick(2)", "two": "tick()\nshow()", "reset": "tick()", "pair": "tick()"}[fn]
+        init = "count = 0\n" + ("total = 0\n" if fn == "pair" else "")
+        for mn, m in mains.items():
+            pre = ""
+            if "@@" in m:
+                pre, m = m.split("@@")
+            body = m.format(CALL=call)
+            for order in ("init-first", "init-after-functions", "init-between"):
+                if order == "init-first":
+                    head = init + fsrc + pre
+                elif order == "init-after-functions":
+                    head = fsrc + pre + init
+                else:
+                    head = fsrc + init + pre
+                src = head + "while True:\n" + ind(body + "yield_()\n")
+                out.append(mk("GLOBALS", n, src, tag=f"{fn}/{mn}/{order}", V=[0, 1, 2], K=14, T=3, cap=64))
+                n += 1
     return out
 
 
